@@ -16,7 +16,8 @@ Definition sexp_of_revent (e : revent) : sexp :=
   end.
 
 Definition handler_id (h : rhandler) : Z :=
-  match h with HVersion => 0 | HSecurity => 1 | HAuthResp => 2 | HClientInit => 3 | HProtocol => 4 | HQemu => 5 end.
+  match h with HVersion => 0 | HSecurity => 1 | HAuthResp => 2 | HClientInit => 3 | HProtocol => 4 | HQemu => 5
+  | HEncList _ => 6 | HCutText _ => 7 end.
 
 (* chunks: list of (now, bytes). Per chunk: (status 0 ok / 1 raise / 2 spin, events). Stops at the first failure. *)
 Fixpoint proxy_chunks (s : rstate) (chunks : list sexp) : list sexp * option rstate :=
